@@ -4,6 +4,7 @@ from .pcommon import *
 def run_check(tier, seed, replay=None):
     extra = ["--thorough"] if tier == "thorough" else []
     return parser_family_check("C02", tier, seed, replay, CODE_CONTENT | CODE_PANIC,
+        models=[("parser", "MC_Parser.tla", "MC_Parser_quick.cfg")],     # Equivalence / DeliveredPrefix: parse(encode(i)) = i at the design level
         suites=[("asm", "c02", extra, None)],
         required_tags=["c02-random", "c02-counts", "c02-enum", "c02-param", "c02-specop", "c02-literal"],
         assumptions=BASE_ASSUMPTIONS + ["conforming instructions are generated from the pinned grammar (every opcode, every enumerant of every enum operand, every mask bit, none/all bits, optional/variadic counts 0..3, 32/64-bit literals under matching declarations, strings of every length mod 4 incl. multi-byte UTF-8); literal VALUES are sampled, not enumerated",
